@@ -189,7 +189,7 @@ class MutexV:
 
     def __init__(self, data, held=None, poisoned=False):
         self.data = data
-        self.held = held          # None or thread id
+        self.held = held          # None | thread id (exclusive) | ('r', ((thread id, count), ...)) shared holders of an RwLock
         self.poisoned = poisoned
 
     def __repr__(self):
@@ -197,10 +197,11 @@ class MutexV:
 
 
 class GuardV:
-    __slots__ = ('ref',)
+    __slots__ = ('ref', 'mode')
 
-    def __init__(self, ref):
+    def __init__(self, ref, mode='x'):
         self.ref = ref
+        self.mode = mode          # 'x' exclusive (Mutex, RwLock::write) | 'r' shared (RwLock::read)
 
     def __repr__(self):
         return 'Guard(%r)' % (self.ref,)
